@@ -130,7 +130,7 @@ func verif_Setter_SetNewWorkConn(s Setter, m *msg.NewWorkConn) {
 //verif:contract (~/pkg/auth.Setter).SetLogin
 //verif:impls *~/pkg/auth.TokenAuthSetterVerifier *~/pkg/auth.OidcAuthProvider
 //verif:props C05
-//verif:modifies H.pkg.msg.Login.
+//verif:modifies H.pkg.msg.Login.PrivilegeKey
 func verif_Setter_SetLogin(s Setter, m *msg.Login) {
 	verif.Requires(m != nil, "message_present")
 	err := s.SetLogin(m)
